@@ -18,8 +18,13 @@ RULE = ("exhaustive cross product: 8 undefined types (Undefined, ChainableUndefi
         "Environment.undefined with name, obj+name, hint, hint+obj+name, exc=, direct "
         "constructor) x operations (str, format, bool, not, iter, async iter, len, hash, int, "
         "float, complex, unary +/-, call, getattr, getitem, copy, deepcopy, pickle, "
-        "defined/undefined tests, default filter, + - * / // % ** < <= > >= == != in, both "
-        "operand orders) x 14 other operands, executed on the live object; plus the same "
+        "defined/undefined tests, default filter, + - * / // % ** < <= > >= == != in (the undefined "
+        "as container and as member of a list / tuple / set / dict), both "
+        "operand orders) x 19 other operands (incl. an undefined of the same class and undefined "
+        "values of each OTHER undefined class: Undefined, ChainableUndefined, DebugUndefined, "
+        "StrictUndefined, a foreign logging class), executed on the live object; whenever two "
+        "undefined values compare equal their hashes must be equal, and list containment must "
+        "agree with set/dict lookup; plus the same "
         "operations written as template expressions (sync and async environments). A cell is "
         "distinct by (type, origin, level, operation, operand kind); all cells are non-trivial "
         "(each executes one operation on a live undefined and is compared with the table). "
@@ -43,6 +48,13 @@ ASSUMPTIONS = [
     "a binary cell with the undefined on the right is decided only when Python's operator "
     "dispatch consults the right operand at all (probed with a neutral recording object; e.g. "
     "'str % x' is handled by str alone and is skipped)",
+    "whether undefined values of two different undefined classes are equal is not documented and "
+    "not demanded; demanded is only consistency: == True implies equal hashes (Python data "
+    "model, CHANGES 2.6 'properly hashing undefined objects'), and `u in [x]` agrees with "
+    "`u in {x}` / `u in {x: 1}` (also as the template expression (u == x) == (u in {x: 1}))",
+    "an undefined on the left of ==/!= with a StrictUndefined on the right: UndefinedError is "
+    "demanded only when Python gives the right operand priority (its class is a proper subclass "
+    "of the left one's); otherwise the left (non-strict) operand's own answer is accepted",
     "logging variants: only the documented 'logs iterations and printing' is demanded; pickle of "
     "logging variants is not exercised (class is local to the factory)",
     "dunder attribute names (two leading and two trailing underscores): only getattr()/hasattr() "
@@ -61,7 +73,8 @@ FLOORS = {
                            "msg_checks": 35000, "random_rounds": 120, "weak_val": 4000,
                            "attr_cells": 8000, "attr_cells_dunder": 400,
                            "attr_cells_two_leading_underscores": 3000,
-                           "outcome_attrerr": 200}},
+                           "outcome_attrerr": 200, "hash_eq_checks": 60,
+                           "container_agreement_checks": 200}},
     "thorough": {"evaluations": 150000, "distinct": 40000,
                  "counters": {"py_cells": 100000, "tmpl_cells": 15000, "async_cells": 150,
                               "outcome_err": 100000, "outcome_val": 25000, "log_checks": 1000,
@@ -69,7 +82,8 @@ FLOORS = {
                               "weak_val": 12000, "attr_cells": 8000,
                               "attr_cells_dunder": 400,
                               "attr_cells_two_leading_underscores": 3000,
-                              "outcome_attrerr": 200}},
+                              "outcome_attrerr": 200, "hash_eq_checks": 60,
+                              "container_agreement_checks": 200}},
 }
 
 TYPE_SPECS = list(T.BASES) + [f"Logging({b})" for b in T.BASES]
@@ -179,13 +193,47 @@ OPERANDS = [
     ("int0", 0), ("int", 42), ("negint", -3), ("float", 2.5), ("str", "a"), ("emptystr", ""),
     ("list", [1]), ("tuple", (1,)), ("none", None), ("true", True), ("dict", {"k": 1}),
     ("plainobj", "$plain"), ("undef_same", "$same"), ("undef_diff", "$diff"),
-]
+] + [("undef_cls:" + c, "$cls:" + c) for c in
+     ("Undefined", "ChainableUndefined", "DebugUndefined", "StrictUndefined",
+      "Logging(Undefined)")]
+# "undef_cls:<C>": an undefined value of undefined class C (an object of ANOTHER environment /
+# handed in by the application) meets the undefined under test
 OPERAND_TMPL = {  # template spelling of the operand
     "int0": "0", "int": "42", "negint": "-3", "float": "2.5", "str": "'a'", "emptystr": "''",
     "list": "[1]", "tuple": "(1,)", "none": "none", "true": "true", "dict": "{'k': 1}",
     "plainobj": "obj2", "undef_same": "other_undef",
+    "undef_cls:Undefined": "foreign_Undefined",
+    "undef_cls:ChainableUndefined": "foreign_ChainableUndefined",
+    "undef_cls:DebugUndefined": "foreign_DebugUndefined",
+    "undef_cls:StrictUndefined": "foreign_StrictUndefined",
+    "undef_cls:Logging(Undefined)": "foreign_LoggingUndefined",
 }
+UNHASHABLE_OPERANDS = ("list", "dict")
 OTHER_NAME = "other_undef"
+
+
+_foreign_logging = []
+
+
+def foreign_class(spec):
+    """An undefined class that does not belong to the environment under test."""
+    import jinja2
+
+    if spec == "Logging(Undefined)":
+        if not _foreign_logging:
+            lg = logging.getLogger("vt.c21.foreign")
+            lg.propagate = False
+            lg.handlers[:] = [logging.NullHandler()]
+            _foreign_logging.append(jinja2.make_logging_undefined(logger=lg,
+                                                                  base=jinja2.Undefined))
+        return _foreign_logging[0]
+    return getattr(jinja2, spec)
+
+
+def foreign_undefineds():
+    """render-context entries for the template spellings of the undef_cls operands"""
+    return {v: foreign_class(k.split(":", 1)[1])(name=OTHER_NAME)
+            for k, v in OPERAND_TMPL.items() if k.startswith("undef_cls:")}
 
 
 def make_operand(cls, base, kind, value):
@@ -194,6 +242,9 @@ def make_operand(cls, base, kind, value):
 
     if value == "$plain":
         return Plain(), None
+    if isinstance(value, str) and value.startswith("$cls:"):
+        return foreign_class(value[5:])(name=OTHER_NAME), {"names": [OTHER_NAME], "hint": None,
+                                                           "exc": "UndefinedError"}
     if value == "$same":
         return cls(name=OTHER_NAME), {"names": [OTHER_NAME], "hint": None, "exc": "UndefinedError"}
     if value == "$diff":
@@ -464,14 +515,15 @@ def py_cell(ctx, env, cls, base, recs, cell, u=None, info=None):
             expected = T.expect(base, "contains")
             outcome = attempt(operator.contains, u, x)
             xinfo = None               # `in` never operates on x
-        elif op in ("in_list", "in_dict"):
-            if op == "in_dict":
+        elif op in ("in_list", "in_tuple", "in_set", "in_dict"):
+            if op in ("in_dict", "in_set"):
                 try:
                     hash(x)
                 except Exception:
                     ctx.count("skipped_unhashable_operand")
                     return
-            cont = [x, 5] if op == "in_list" else {x: 1}
+            cont = {"in_list": lambda: [x, 5], "in_tuple": lambda: (x, 5),
+                    "in_set": lambda: {x, 5}, "in_dict": lambda: {x: 1, 5: 2}}[op]()
             expected = T.expect(base, op, is_u)
             outcome = attempt(operator.contains, cont, u)
         elif op.startswith("r") and op[1:] in BIN:   # x OP u
@@ -479,11 +531,18 @@ def py_cell(ctx, env, cls, base, recs, cell, u=None, info=None):
                 ctx.count("skipped_left_operand_handles_op")
                 return
             expected = T.expect(base, op, is_u)
+            import jinja2
+            x_strict = isinstance(x, jinja2.StrictUndefined)
             if is_u and expected[0] != "err":
                 # x is itself an undefined on the left: its own table applies first
-                xb = "StrictUndefined" if type(x).__name__ == "StrictUndefined" else base
+                xb = "StrictUndefined" if x_strict else base
                 if T.expect(xb, op[1:], True)[0] == "err":
                     expected = T.ERR
+            elif is_u and op in ("req", "rne") and not x_strict and \
+                    not (isinstance(u, type(x)) and type(u) is not type(x)):
+                # a non-strict undefined on the left answers itself unless Python gives the
+                # right operand priority (its type is a proper subclass of the left one's)
+                expected = T.expect("Undefined", op[1:], True)
             outcome = attempt(BIN[op[1:]], x, u)
         else:                                          # u OP x
             expected = T.expect(base, op, is_u)
@@ -498,12 +557,24 @@ def py_cell(ctx, env, cls, base, recs, cell, u=None, info=None):
     if fail:
         report(ctx, "py", op, spec, fail, cell)
         return
-    # hash/eq consistency between equal undefineds
-    if op == "eq" and opd and outcome == ("ok", True):
+    # hash/eq consistency between equal undefineds (Python data model: objects that compare
+    # equal must have the same hash value; otherwise dict/set lookups contradict ==)
+    if op in ("eq", "req") and opd and outcome == ("ok", True):
+        ctx.count("hash_eq_checks")
         h1, h2 = attempt(hash, u), attempt(hash, x)
         if h1[0] == "ok" and h2[0] == "ok" and h1[1] != h2[1]:
             report(ctx, "py", "hash", spec, ("hash-eq-inconsistent",
-                                             f"equal undefineds hash differently {h1} {h2}"), cell)
+                                             f"{type(u).__name__} and {type(x).__name__} compare "
+                                             f"equal but hash differently {h1} {h2}"), cell)
+    # sequence containment (==) and hashed containment (hash + ==) of the same undefined operand
+    # must agree
+    if op in ("in_set", "in_dict") and opd and xinfo is not None and outcome[0] == "ok":
+        ctx.count("container_agreement_checks")
+        seq = attempt(operator.contains, [x, 5], u)
+        if seq[0] == "ok" and bool(seq[1]) != bool(outcome[1]):
+            report(ctx, "py", "hash", spec,
+                   ("containers-disagree", f"{type(u).__name__} in [{type(x).__name__}, 5] is "
+                                           f"{seq[1]} but {op} lookup gives {outcome[1]}"), cell)
     # logging variants: "It will log iterations and printing"
     if recs is not None:
         ctx.count("log_records_seen", len(recs))
@@ -518,7 +589,8 @@ def py_cell(ctx, env, cls, base, recs, cell, u=None, info=None):
 def py_binary_group(ctx, env, cls, base, recs, spec, origin, nm, okind, ovalue):
     u, info = make_undefined(env, cls, origin, nm)
     opd = {"kind": okind, "value": ovalue}
-    for op in list(BIN) + ["r" + b for b in BIN] + ["contains", "in_list", "in_dict"]:
+    for op in list(BIN) + ["r" + b for b in BIN] + ["contains", "in_list", "in_tuple", "in_set",
+                                                    "in_dict"]:
         cell = {"level": "py", "type": spec, "origin": origin, "name": nm, "op": op,
                 "operand": opd}
         py_cell(ctx, env, cls, base, recs, cell, u=u, info=info)
@@ -667,7 +739,7 @@ def tmpl_cell(ctx, env, base, recs, cell):
     else:
         op = tname
         X = OPERAND_TMPL[opd["kind"]]
-        is_u = opd["kind"] == "undef_same"
+        is_u = opd["kind"].startswith("undef_")
         if is_u:
             xinfo = {"names": [OTHER_NAME], "hint": None, "exc": "UndefinedError"}
         if op == "contains":
@@ -679,6 +751,17 @@ def tmpl_cell(ctx, env, base, recs, cell):
             conv = lambda v: str(not v)  # noqa: E731
         elif op == "in_list":
             src, mop = "{{ %s in [(%s), 5] }}" % (E, X), "in_list"
+        elif op in ("in_tuple", "in_dict", "eq_in_dict_agree"):
+            if opd["kind"] in UNHASHABLE_OPERANDS:
+                ctx.count("skipped_unhashable_operand")
+                return
+            if op == "eq_in_dict_agree":
+                src = "{{ (%s == (%s)) == (%s in {(%s): 1}) }}" % (E, X, E, X)
+            elif op == "in_tuple":
+                src = "{{ %s in ((%s), 5) }}" % (E, X)
+            else:
+                src = "{{ %s in {(%s): 1, 5: 2} }}" % (E, X)
+            mop = op
         elif op.startswith("r") and op[1:] in BIN:
             if not is_u:
                 x, _ = make_operand(None, base, opd["kind"], opd["value"])
@@ -689,11 +772,20 @@ def tmpl_cell(ctx, env, base, recs, cell):
         else:
             src, mop = "{{ %s %s (%s) }}" % (E, BIN_TMPL[op], X), op
         expected = T.expect(base, mop, is_u)
+        if op in ("req", "rne") and expected[0] == "err" and opd["kind"].startswith("undef_cls:"):
+            import jinja2
+            xcls = foreign_class(opd["kind"].split(":", 1)[1])
+            ucls = env.undefined
+            if not issubclass(xcls, jinja2.StrictUndefined) and \
+                    not (issubclass(ucls, xcls) and ucls is not xcls):
+                # the non-strict undefined on the left answers itself (see py_cell)
+                expected = T.expect("Undefined", op[1:], True)
         conv = conv or _txt
     if recs is not None:
         del recs[:]
     rctx = render_ctx()
     rctx["obj2"] = Plain()
+    rctx.update(foreign_undefineds())
     cell["src"] = src
     outcome = attempt(lambda: env.from_string(src).render(**rctx))
     ctx.ev()
@@ -732,7 +824,8 @@ def tmpl_cell(ctx, env, base, recs, cell):
 
 
 TMPL_OPERANDS = [o for o in OPERANDS if o[0] in OPERAND_TMPL]
-TMPL_BIN_OPS = list(BIN) + ["r" + b for b in BIN] + ["contains", "not_contains", "in_list"]
+TMPL_BIN_OPS = list(BIN) + ["r" + b for b in BIN] + ["contains", "not_contains", "in_list",
+                                                     "in_tuple", "in_dict", "eq_in_dict_agree"]
 ASYNC_OPS = ("print", "for", "list", "if", "is_defined", "default")
 
 
@@ -849,7 +942,7 @@ def rand_operand(rng):
     if k == 5:
         return ("true", rng.choice([True, False]))
     if k == 6:
-        return ("undef_same", "$same")
+        return rng.choice([o for o in OPERANDS if o[0].startswith("undef_")])
     return ("undef_diff", "$diff")
 
 
